@@ -29,6 +29,12 @@ CLAIMED = {
  "C16": ("exploration", "differential property-based testing: -b opening positions vs prepended opening purchases; malformed specifications",
          "Every row of the original input must show the same figures under '-b SYM:n:c' and under a prepended Buy (n shares, total cost c, default affiliate, 400 days earlier); opening positions of absent symbols change nothing; malformed strings are rejected (library) and rejected before any file is opened (binary).",
          "Zero-share opening positions are compared with no purchase.", "DESIGN.md section 4 C16"),
+ "C06": ("exploration", "property-based testing with exact re-summation of full-precision cells and a two-run (default vs full precision) differential",
+         "Yearly figures, table totals, aggregate years and 'Since inception' are recomputed exactly from the full-precision gain cells (by settlement year, error-free securities only); every money figure of the default rendering must equal the full-precision figure rounded half away from zero; text and CSV front ends must show the render model's cells.",
+         "Figures are read from the render model (the web UI's source) with a tokenizer for $-amounts and '(x CUR)' amounts.", "DESIGN.md section 4 C06"),
+ "C17": ("exploration", "property-based testing against an independent recomputation from the tool's own per-row ledger",
+         "Total-costs and yearly-max tables are recomputed from the TxDeltas of the same run (default affiliate: day maximum, else closing cost of the most recent earlier day, else opening cost) and compared cell by cell; ties for a yearly maximum accept any tied day.",
+         "Only error-free inputs (as the property states).", "DESIGN.md section 4 C17"),
 }
 NOT_YET = "check not built yet in this round (planned: see DESIGN.md section 4)"
 
